@@ -259,7 +259,7 @@ static void GenEqualStampCase(Gen& g)
 	g.Emit("replay " + g.Now() + " A");
 }
 
-/* F-C12b: a record whose JSON text is `null` in an otherwise healthy two-file log */
+/* regression for F-C12b (fixed): a record whose JSON text is `null` in the first of two files; the other file is still replayed */
 static void GenNullRecordCase(Gen& g)
 {
 	g.Header(0, 86400, 86400, 86400);
